@@ -80,6 +80,7 @@ static void gen_model(struct sim_prng *r)
 	P.m_nosend = PICK(r, 0, 1);
 	P.m_rng_init = PICK(r, 0, 1);
 	P.m_rng_craft = PICK(r, 0, 0, 1);
+	P.m_forward = PICK(r, 0, 0, 1);
 }
 
 static void gen_params(const char *profile, uint64_t base, long idx)
